@@ -61,6 +61,14 @@ pub assume_specification [<NamedSymbol as Clone>::clone] (b: &NamedSymbol) -> (r
 
 // [A5] Rc<T> == Rc<T> compares pointees; Rc::clone yields an equal value
 #[verifier::external_body]
+pub proof fn axiom_rc_obeys()
+    ensures <Rc<BDD> as PartialEqSpec>::obeys_eq_spec(),
+{}
+#[verifier::external_body]
+pub broadcast proof fn axiom_rc_eqs(a: Rc<BDD>, b: Rc<BDD>)
+    ensures #[trigger] <Rc<BDD> as PartialEqSpec>::eq_spec(&a, &b) == (*a == *b)
+{}
+#[verifier::external_body]
 pub broadcast proof fn axiom_rc_cloned(a: Rc<BDD>, b: Rc<BDD>)
     ensures #[trigger] cloned::<Rc<BDD>>(a, b) ==> a == b
 {}
